@@ -1,4 +1,5 @@
 import Resgate.Gw.Close
+import Resgate.Gw.Populate
 import Resgate.Gw.Cache
 import Resgate.Model.Encode
 import Resgate.Model.Http
@@ -13,13 +14,6 @@ namespace Resgate.Gw
 
 def vLatestSoft : Nat := 1002001
 def vCallRes : Nat := 1002000
-
-def Sub.isReady (s : Sub) : Bool := s.state.toNat ≥ 3
-def Sub.isSent (s : Sub) : Bool := s.state == .sent
-
-/-- `Subscription.Error`. -/
-def Sub.error (s : Sub) : Option String :=
-  if s.state == .disposed then some "system.disposedSubscription" else s.err
 
 def sendFrame (cid : Nat) (txt : String) : M Unit := emit s!"F {cname cid} {txt}"
 
@@ -46,9 +40,6 @@ def newSubObj (cid : Nat) (rid : String) (throttle : Option Nat) : M Nat := do
 
 def getRcb (cid id : Nat) : M Rcb := return tget (← getConn cid).rcbs id
 def setRcb (cid id : Nat) (r : Rcb) : M Unit := modConn cid fun c => { c with rcbs := tset c.rcbs id r }
-
-def sortedRefs (s : Sub) : List (String × Nat × Nat) :=
-  (s.refs.toArray.qsort (fun a b => a.1 < b.1)).toList
 
 def lcg (x : Nat) : Nat := (x * 6364136223846793005 + 1442695040888963407) % 18446744073709551616
 
@@ -294,23 +285,14 @@ def removeReference (cid uid : Nat) (rid : String) : M Unit := do
     else
       setSub cid { s with refs := s.refs.map fun r => if r.1 == rid then (r.1, r.2.1, r.2.2 - 1) else r }
 
-/-- `populateResources` (both encodings populate alike; rendering differs). -/
-partial def populate (cid uid : Nat) (r : RSet) (indirect : Bool) : M RSet := do
-  if indirect then modSub cid uid fun s => { s with indirectsent := s.indirectsent + 1 }
-  let s ← getSub cid uid
-  if s.state == .sent || s.state == .toSend then return r
-  match s.error with
-  | some e => return { r with errors := sset r.errors s.rid e }
-  | none =>
-    let r := match s.typ with
-      | .collection => { r with colls := sset r.colls s.rid s.coll }
-      | .model => { r with models := sset r.models s.rid s.model }
-      | _ => r
-    setSub cid { s with state := .toSend }
-    let mut r := r
-    for (_, child, _) in (← orderedRefs s) do
-      r ← populate cid child r true
-    return r
+/-- `populateResources` (both encodings populate alike; rendering differs): the pure `populateF`
+    with fuel for one descent per subscription object of the connection. -/
+def populate (cid uid : Nat) (r : RSet) (indirect : Bool) : M RSet := do
+  let c ← getConn cid
+  let res := populateF (c.objs.length + 2) c uid r indirect
+  setConn res.1
+  if !res.2.2 then doPanic "populate: recursion bound exceeded"
+  return res.2.1
 
 mutual
 
@@ -390,7 +372,7 @@ partial def unqueueEvents (cid uid : Nat) (reason : Nat) : M Unit := do
 
 /-- `handleReaccess`. -/
 partial def handleReaccess (cid uid : Nat) (t : Option Nat) : M Unit := do
-  modSub cid uid fun s => { s with access := none, flags := s.flags &&& 1 }
+  modSub cid uid fun s => { s with access := verdictStep s.access .trigger, flags := s.flags &&& 1 }
   let s ← getSub cid uid
   if s.direct == 0 then return
   modSub cid uid fun s => { s with queueFlag := s.queueFlag ||| 2 }
@@ -794,9 +776,8 @@ def runKItem (cid : Nat) (it : KItem) : M Unit := do
   | .accessAnswer uid a =>
     let s ← getSub cid uid
     if s.state == .disposed then return
-    let store := storeVerdict a
     setSub cid { s with flags := s.flags &&& 2, accessCbs := [],
-                        access := if store then some a else s.access }
+                        access := verdictStep s.access (.answer a) }
     for k in s.accessCbs do runACont cid uid k a
   | .callAnswer k a =>
     match k with
@@ -886,7 +867,7 @@ def runKItem (cid : Nat) (it : KItem) : M Unit := do
           (fun eid => .call eid (if mapped then .httpMapped cid h ms none else .httpCall cid h ms none))
   | .tokenReset tids subject =>
     let c ← getConn cid
-    if c.tid == "" || !tids.contains c.tid then return
+    if !resetAddresses c.tid tids then return
     registerReq subject (reqPayload cid c.token "" "") .tokenAuth
   | .dispose => disposeConn cid
 
